@@ -433,15 +433,25 @@ def cm_change_to_path_dir(ctx):
 
 
 def pp_setup(ctx):
-    fpath = Rec("Path", attrs={}, methods={"get_content": lambda c, s_, a, k: (c.event("read", s_), z3.String("cfg_str"))[1]})
+    def get_content(c, s_, a, k):
+        c.event("read", s_, tuple(c.ghost.get("dir_stack", [])))
+        if c.choose(2, "the-file-is-not-text(UnicodeDecodeError)") == 1:
+            raise PyRaise(ExcVal("UnicodeDecodeError", args=("invalid start byte",), origin="get_content"))
+        return z3.String("cfg_str")
+
+    ctx.classes.add("UnicodeDecodeError", ["ValueError"])
+    fpath = Rec("Path", attrs={}, methods={"get_content": get_content})
     cfg_path = z3.String("cfg_path")
 
     def path_ctor(ctx_, args, kwargs):
         if args[0] is not cfg_path:
             raise Unsupported("Path() of something else than cfg_path")
         ctx_.event("Path", kwargs.get("mode"))
-        if ctx_.choose(2, "Path-raises") == 1:
-            raise PyRaise(ExcVal("PathError", origin="Path()"))
+        which = ctx_.choose(3, "Path-raises")
+        if which == 1:
+            raise PyRaise(ExcVal("PathError", args=("File does not exist",), origin="Path()"))
+        if which == 2:
+            raise PyRaise(ExcVal("ValueError", args=("embedded null byte",), origin="Path()"))  # a text no file system call accepts
         return fpath
 
     def parse_string(ctx_, self, args, kwargs):
@@ -451,7 +461,11 @@ def pp_setup(ctx):
             raise PyRaise(ExcVal("ArgumentError", origin="parse_string"))
         return Rec("Namespace")
 
-    self = Rec("ArgumentParser", methods={"parse_string": parse_string})
+    def error(ctx_, self_, args, kwargs):
+        ctx_.event("self.error", args[0], tuple(ctx_.ghost.get("dir_stack", [])))
+        raise PyRaise(ExcVal("ArgumentError", origin="self.error"))  # contract of ArgumentParser.error: never returns (ArgumentError or exit status 2)
+
+    self = Rec("ArgumentParser", methods={"parse_string": parse_string, "error": error})
     calls = {"Path": path_ctor, "get_config_read_mode": lambda c, a, k: "fr", "os.path.basename": lambda c, a, k: z3.String("basename")}
     vals = {"ext_vars": Rec("ext_vars"), "env": z3.Bool("env"), "defaults": z3.Bool("defaults"), "with_meta": z3.Bool("with_meta")}
     env = {"self": self, "cfg_path": cfg_path, "kwargs": {"_skip_validation": True}}
@@ -481,7 +495,12 @@ def pp_post(ctx, st, result):
 
 def pp_raises(ctx, st, exc):
     pp_check(ctx, st, "raise")
-    ctx.oblige("raises", f"only-from-Path-or-parse_string(got {exc.cls}@{exc.origin})", exc.origin in ("Path()", "parse_string"))
+    # C03: a path that cannot be opened or read as a config is a parse failure like any other: it leaves through the parser's error channel
+    # (PathError / ValueError of Path() and the UnicodeDecodeError of a file that is not text escaped parse_path as they were; fixed)
+    ctx.oblige("raises", f"a-failure-leaves-through-the-parser's-error-channel(self.error)-or-comes-from-the-nested-parse,never-as-the-raw-exception-of-Path()/get_content(got {exc.cls}@{exc.origin})",
+               exc.origin in ("self.error", "parse_string"))
+    errs = [e for e in ctx.events if e[0] == "self.error"]
+    ctx.oblige("raises", "at-most-one-error-is-reported", len(errs) <= 1)
 
 
 UNITS = [
@@ -503,7 +522,7 @@ UNITS += [
                   "os.chdir(d) on the directory of an accepted path does not raise and makes os.getcwd() return d (A3)",
                   "the with-body leaves cwd and current_path_dir as it found them (nested uses: by this same contract)",
                   "precondition: path is None or a local Path whose .absolute and its dirname are non-empty (URL/fsspec paths outside the contract)"]),
-    Unit("C19", "jsonargparse._core:ArgumentParser.parse_path", pp_setup, pp_post, pp_raises, expect_cover=("return", "raise:PathError", "raise:ArgumentError")),
+    Unit("C19", "jsonargparse._core:ArgumentParser.parse_path", pp_setup, pp_post, pp_raises, expect_cover=("return", "raise:ArgumentError")),
 ]
 
 from contracts.check_type import check_type_unit  # noqa: E402
